@@ -47,6 +47,10 @@ pub enum V {
   DocErr(String),
   OtherErr(String),
   Panic(String),
+  /// the worker process died (stack overflow, allocation failure): signal / exit status
+  Abort(String),
+  /// the worker did not answer within the per-call limit and was killed
+  Hang,
 }
 
 impl V {
@@ -61,6 +65,8 @@ impl V {
       V::DocErr(_) => "doc_err",
       V::OtherErr(_) => "other_err",
       V::Panic(_) => "panic",
+      V::Abort(_) => "abort",
+      V::Hang => "hang",
     }
   }
   pub fn brief(&self) -> String {
@@ -75,6 +81,8 @@ impl V {
       V::DocErr(s) => format!("doc_err: {}", s),
       V::OtherErr(s) => format!("other_err: {}", s),
       V::Panic(s) => format!("panic: {}", s),
+      V::Abort(s) => format!("abort: {}", s),
+      V::Hang => "hang".into(),
     }
   }
 }
@@ -128,6 +136,44 @@ pub fn in_call(what: impl FnOnce() -> String) -> InCall {
   InCall(idx)
 }
 
+static ABORT_FD: std::sync::atomic::AtomicI32 = std::sync::atomic::AtomicI32::new(-1);
+
+extern "C" fn on_abort(_sig: libc::c_int) {
+  // async-signal context: no allocation; dump the inputs of the calls in flight and leave
+  let fd = ABORT_FD.load(std::sync::atomic::Ordering::Relaxed);
+  if fd >= 0 {
+    // the call that has been running longest is the one that exhausted its (512 MiB) stack; no allocation here
+    if let Ok(s) = SLOTS.try_lock() {
+      let mut best: Option<&Slot> = None;
+      for x in s.iter().flatten() {
+        if best.map(|b| x.since < b.since).unwrap_or(true) {
+          best = Some(x);
+        }
+      }
+      if let Some(x) = best {
+        unsafe {
+          libc::write(fd, x.what.as_ptr() as *const libc::c_void, x.what.len());
+          libc::write(fd, b"\n".as_ptr() as *const libc::c_void, 1);
+        }
+      }
+    }
+  }
+  unsafe { libc::_exit(3) };
+}
+
+/// Install a SIGABRT handler that saves the inputs of all calls in flight to `path` (one JSON per
+/// line) and exits with status 3: stack overflows and allocation failures inside the crate under test
+/// abort the process, and the run must still say which input did it.
+pub fn install_abort_dump(path: &std::path::Path) {
+  if let Ok(c) = std::ffi::CString::new(path.to_string_lossy().as_bytes()) {
+    let fd = unsafe { libc::open(c.as_ptr(), libc::O_WRONLY | libc::O_CREAT | libc::O_TRUNC, 0o644) };
+    ABORT_FD.store(fd, std::sync::atomic::Ordering::Relaxed);
+    unsafe {
+      libc::signal(libc::SIGABRT, on_abort as usize);
+    }
+  }
+}
+
 /// Start the watchdog thread. `on_hang` receives the description of the stuck call.
 pub fn start_watchdog(limit_s: u64, on_hang: impl Fn(String) + Send + 'static) {
   std::thread::spawn(move || loop {
@@ -147,6 +193,13 @@ pub fn validate_json(schema: &str, json: &str) -> V {
 }
 
 pub fn validate_json_feat(schema: &str, json: &str, feats: Option<&[&str]>) -> V {
+  if feats.is_none() && isolated() {
+    return worker_call("json", schema, json.as_bytes());
+  }
+  validate_json_local(schema, json, feats)
+}
+
+pub fn validate_json_local(schema: &str, json: &str, feats: Option<&[&str]>) -> V {
   use cddl::validator::json::Error as E;
   let _w = in_call(|| serde_json::json!({"call": "validate_json_from_str", "schema": schema, "json": json}).to_string());
   match guard(|| cddl::validate_json_from_str(schema, json, feats)) {
@@ -166,6 +219,13 @@ pub fn validate_cbor(schema: &str, bytes: &[u8]) -> V {
 }
 
 pub fn validate_cbor_feat(schema: &str, bytes: &[u8], feats: Option<&[&str]>) -> V {
+  if feats.is_none() && isolated() {
+    return worker_call("cbor", schema, bytes);
+  }
+  validate_cbor_local(schema, bytes, feats)
+}
+
+pub fn validate_cbor_local(schema: &str, bytes: &[u8], feats: Option<&[&str]>) -> V {
   use cddl::validator::cbor::Error as E;
   let _w = in_call(|| serde_json::json!({"call": "validate_cbor_from_slice", "schema": schema, "cbor": crate::cbor::hex(bytes)}).to_string());
   match guard(|| cddl::validate_cbor_from_slice(schema, bytes, feats)) {
@@ -224,4 +284,187 @@ pub fn parses(text: &str) -> Option<bool> {
 /// Parse and format. Ok(text) / Err(Ok(parse error)) / Err(Err(panic))
 pub fn format(text: &str) -> Result<String, Result<String, String>> {
   with_parsed(text, |c| c.to_string())
+}
+
+
+// ---------------------------------------------------------------------------------------
+// Process isolation: validator calls can abort the process (stack overflow, allocation failure) or
+// never return; with isolation on they run in a per-thread child `vcheck worker` over pipes.
+// ---------------------------------------------------------------------------------------
+
+static ISOLATE: std::sync::atomic::AtomicBool = std::sync::atomic::AtomicBool::new(false);
+static CALL_LIMIT_MS: std::sync::atomic::AtomicU64 = std::sync::atomic::AtomicU64::new(10_000);
+
+pub fn set_isolated(on: bool, call_limit_ms: u64) {
+  ISOLATE.store(on, std::sync::atomic::Ordering::SeqCst);
+  CALL_LIMIT_MS.store(call_limit_ms, std::sync::atomic::Ordering::SeqCst);
+}
+
+pub fn isolated() -> bool {
+  ISOLATE.load(std::sync::atomic::Ordering::Relaxed)
+}
+
+struct Worker {
+  child: std::process::Child,
+  stdin: std::process::ChildStdin,
+  stdout: std::process::ChildStdout,
+  buf: Vec<u8>,
+}
+
+thread_local! {
+  static WORKER: RefCell<Option<Worker>> = RefCell::new(None);
+}
+
+fn spawn_worker() -> Worker {
+  let exe = std::env::current_exe().expect("current_exe");
+  let mut child = std::process::Command::new(exe)
+    .arg("worker")
+    .stdin(std::process::Stdio::piped())
+    .stdout(std::process::Stdio::piped())
+    .stderr(std::process::Stdio::null())
+    .spawn()
+    .expect("spawn worker");
+  let stdin = child.stdin.take().unwrap();
+  let stdout = child.stdout.take().unwrap();
+  Worker { child, stdin, stdout, buf: vec![] }
+}
+
+enum Resp {
+  Line(String),
+  Died(String),
+  Timeout,
+}
+
+fn roundtrip(w: &mut Worker, req: &str, limit_ms: u64) -> Resp {
+  use std::io::{Read, Write};
+  use std::os::unix::io::AsRawFd;
+  if w.stdin.write_all(req.as_bytes()).and_then(|_| w.stdin.write_all(b"\n")).and_then(|_| w.stdin.flush()).is_err() {
+    let st = w.child.wait().map(|s| format!("{}", s)).unwrap_or_default();
+    return Resp::Died(st);
+  }
+  let fd = w.stdout.as_raw_fd();
+  let start = std::time::Instant::now();
+  loop {
+    if let Some(pos) = w.buf.iter().position(|b| *b == b'\n') {
+      let line: Vec<u8> = w.buf.drain(..=pos).collect();
+      return Resp::Line(String::from_utf8_lossy(&line[..line.len() - 1]).to_string());
+    }
+    let elapsed = start.elapsed().as_millis() as u64;
+    if elapsed >= limit_ms {
+      return Resp::Timeout;
+    }
+    let mut pfd = libc::pollfd { fd, events: libc::POLLIN, revents: 0 };
+    let r = unsafe { libc::poll(&mut pfd, 1, (limit_ms - elapsed).min(1000) as i32) };
+    if r > 0 {
+      let mut chunk = [0u8; 65536];
+      match w.stdout.read(&mut chunk) {
+        Ok(0) | Err(_) => {
+          let st = w.child.wait().map(|s| format!("{}", s)).unwrap_or_default();
+          return Resp::Died(st);
+        }
+        Ok(n) => w.buf.extend_from_slice(&chunk[..n]),
+      }
+    }
+  }
+}
+
+pub fn worker_call(kind: &str, schema: &str, doc: &[u8]) -> V {
+  let req = serde_json::json!({"k": kind, "s": schema, "d": crate::cbor::hex(doc)}).to_string();
+  let limit = CALL_LIMIT_MS.load(std::sync::atomic::Ordering::Relaxed);
+  WORKER.with(|cell| {
+    let mut slot = cell.borrow_mut();
+    if slot.is_none() {
+      *slot = Some(spawn_worker());
+    }
+    let resp = roundtrip(slot.as_mut().unwrap(), &req, limit);
+    match resp {
+      Resp::Line(l) => decode_v(&l),
+      Resp::Died(st) => {
+        *slot = None;
+        V::Abort(st)
+      }
+      Resp::Timeout => {
+        if let Some(mut w) = slot.take() {
+          let _ = w.child.kill();
+          let _ = w.child.wait();
+        }
+        V::Hang
+      }
+    }
+  })
+}
+
+fn encode_v(v: &V) -> String {
+  use serde_json::json;
+  match v {
+    V::Ok => json!({"v": "ok"}),
+    V::Invalid(l) => json!({"v": "invalid", "e": l}),
+    V::SchemaErr(s) => json!({"v": "schema_err", "m": s}),
+    V::DocErr(s) => json!({"v": "doc_err", "m": s}),
+    V::OtherErr(s) => json!({"v": "other_err", "m": s}),
+    V::Panic(s) => json!({"v": "panic", "m": s}),
+    V::Abort(s) => json!({"v": "abort", "m": s}),
+    V::Hang => json!({"v": "hang"}),
+  }
+  .to_string()
+}
+
+fn decode_v(l: &str) -> V {
+  let j: serde_json::Value = match serde_json::from_str(l) {
+    Ok(j) => j,
+    Err(_) => return V::OtherErr(format!("bad worker response: {}", l)),
+  };
+  let m = j["m"].as_str().unwrap_or("").to_string();
+  match j["v"].as_str().unwrap_or("") {
+    "ok" => V::Ok,
+    "invalid" => V::Invalid(
+      j["e"]
+        .as_array()
+        .map(|a| a.iter().map(|p| (p[0].as_str().unwrap_or("").to_string(), p[1].as_str().unwrap_or("").to_string())).collect())
+        .unwrap_or_default(),
+    ),
+    "schema_err" => V::SchemaErr(m),
+    "doc_err" => V::DocErr(m),
+    "panic" => V::Panic(m),
+    "abort" => V::Abort(m),
+    "hang" => V::Hang,
+    _ => V::OtherErr(m),
+  }
+}
+
+/// `vcheck worker`: serve validation requests on stdin/stdout until EOF. Runs on the main thread (8 MiB
+/// stack, what a CLI user gets); address space limited so that absurd allocations fail instead of swapping.
+pub fn worker_main() {
+  use std::io::{BufRead, Write};
+  unsafe {
+    let lim = libc::rlimit { rlim_cur: 4 << 30, rlim_max: 4 << 30 };
+    libc::setrlimit(libc::RLIMIT_AS, &lim);
+    // the protocol owns fd 1: the library prints on its own
+    let proto = libc::dup(1);
+    let dn = libc::open(b"/dev/null\0".as_ptr() as *const libc::c_char, libc::O_WRONLY);
+    libc::dup2(dn, 1);
+    libc::dup2(dn, 2);
+    install_panic_hook();
+    let mut out = <std::fs::File as std::os::unix::io::FromRawFd>::from_raw_fd(proto);
+    let stdin = std::io::stdin();
+    for line in stdin.lock().lines() {
+      let line = match line {
+        Ok(l) => l,
+        Err(_) => break,
+      };
+      let j: serde_json::Value = match serde_json::from_str(&line) {
+        Ok(j) => j,
+        Err(_) => continue,
+      };
+      let schema = j["s"].as_str().unwrap_or("");
+      let doc = crate::cbor::unhex(j["d"].as_str().unwrap_or(""));
+      let v = match j["k"].as_str().unwrap_or("") {
+        "json" => validate_json_local(schema, &String::from_utf8_lossy(&doc), None),
+        "cbor" => validate_cbor_local(schema, &doc, None),
+        _ => V::OtherErr("unknown request".into()),
+      };
+      let _ = writeln!(out, "{}", encode_v(&v));
+      let _ = out.flush();
+    }
+  }
 }
